@@ -18,6 +18,12 @@ CHECKS = {
         "Every single and double inversion of the 196 transmitted bits is injected into zero/unit/random codewords and decoded with repair; encoder compared with an independent product-code reference; messages are sampled, faults are complete per codeword (linearity of the code, itself checked on random pairs, carries the result to other codewords).",
         "Trusts the reference encoder vp/refs/bptc_ref.py (ETSI B.1.1 written from the mathematics) and bitarray/numpy; 2^96 messages are sampled, not enumerated.",
     ),
+    "C20": (
+        "exploration",
+        "model-based testing: complete enumeration of all operation sequences up to a bounded length over a reduced alphabet + Hypothesis RuleBasedStateMachine histories, reference model compared with the full observable state after every step",
+        "Every history explored is compared step by step with a list-of-records reference model over the complete observable state (len, all(), ids, object identity, every field and dynamic attribute of every record); short histories are covered completely (length 5 quick / 6 thorough over 14 concrete ops), longer ones by seeded random search.",
+        "Bounded exhaustive length and a finite pool of addresses/keys/values; caller errors the code documents (patching id / method names, foreign repeaters) are outside the domain.",
+    ),
 }
 
 NOT_YET = "check not built yet in this revision of /verif (planned, see DESIGN.md section 4)"
